@@ -81,7 +81,7 @@ def bounds(tier):
     q = tier == "quick"
     return {"encodings": list(ENC), "regression_sentinels": list(REG_ENC), "pool_subjects": [s.name for s in SP.SUBJECTS if s.quick or not q],
             "classifiers": [c.name for c in M.CLASSIFIERS], "stream_subjects": ["FixedUncertainty", "VariableUncertainty", "StreamProbabilisticAL[rbf]"],
-            "pools": ["line4", "dup4"] if not q else ["dup4", "line4 (cheap subjects only)"], "candidate_modes": ["none", "rows", "none with the real generator (pool dup4, cheap subjects)"], "batch_sizes": [1, 2]}
+            "pools": ["line4", "dup4"] if not q else ["dup4", "line4 (cheap subjects only)"], "candidate_modes": ["none", "rows", "none with the real generator (pool dup4, cheap subjects)", "none with non-integral sample_weight (strategies that accept it)"], "batch_sizes": [1, 2]}
 
 
 def shards(tier, seed):
@@ -107,13 +107,27 @@ def shard_cost(spec):
     return 1
 
 
-def _pool_query(subj, X, y, ml, classes, cand, bs, real=False):
+WEIGHTS = [0.7, 1.9, 0.4, 1.3, 0.6, 1.1]
+
+
+def _has_sample_weight(subj):
+    import inspect
+
+    try:
+        return "sample_weight" in inspect.signature(subj.strategy_class().query).parameters and "sample_weight" not in subj.query_extra
+    except Exception:
+        return False
+
+
+def _pool_query(subj, X, y, ml, classes, cand, bs, real=False, weights=False):
     np.random.seed(PR.GLOBAL_SEED)
     with warnings.catch_warnings():
         warnings.simplefilter("ignore")
         try:
             qs = subj.make(0, ml, classes)
             kw = subj.query_kwargs(X, ml, classes)
+            if weights:
+                kw["sample_weight"] = np.array(WEIGHTS[: len(X)])  # non-integral weights: nothing may derive their handling from the labels
             if real:
                 # the real generator: equal integer seeds must give the same random stream whatever the encoding
                 r = qs.query(X.copy(), y.copy(), candidates=cand, batch_size=bs, return_utilities=True, **kw)
@@ -136,15 +150,18 @@ def check_pool(acc, subj, pname, tier, only_lab=None):
             continue
         if tier == "quick" and subj.cost >= 3 and li % 2:
             continue
-        for mode, bs in (("none", 1), ("none", 2), ("rows", 1), ("none-real", 2)):
+        for mode, bs in (("none", 1), ("none", 2), ("rows", 1), ("none-real", 2), ("none-weights", 1)):
             real = mode.endswith("-real")
+            wts = mode.endswith("-weights")
             if real and (pname != "dup4" or subj.cost >= 3):
                 continue  # the real-generator pass runs where ties make the random stream observable
+            if wts and not _has_sample_weight(subj):
+                continue
             cand = None if mode.startswith("none") else X[u]
             if subj.task == "clf":
-                base = _pool_query(subj, X, encode(lab, "float/nan"), NAN, [0.0, 1.0], cand, bs, real)
+                base = _pool_query(subj, X, encode(lab, "float/nan"), NAN, [0.0, 1.0], cand, bs, real, wts)
             else:
-                base = _pool_query(subj, X, encode_reg(lab, "nan"), NAN, [0, 1], cand, bs, real)
+                base = _pool_query(subj, X, encode_reg(lab, "nan"), NAN, [0, 1], cand, bs, real, wts)
             acc.transitions += 1
             if base[0] != "ok":
                 acc.case((subj.name, pname, lab, mode, bs, "baseline"), trivial=True)
@@ -154,11 +171,11 @@ def check_pool(acc, subj, pname, tier, only_lab=None):
                 if subj.task == "clf":
                     vals, ml, dt = ENC[enc]
                     y_enc = encode(lab, enc)
-                    o = _pool_query(subj, X, y_enc, ml, vals[:2], cand, bs, real)
+                    o = _pool_query(subj, X, y_enc, ml, vals[:2], cand, bs, real, wts)
                 else:
                     ml = REG_ENC[enc]
                     y_enc = encode_reg(lab, enc)
-                    o = _pool_query(subj, X, y_enc, ml, [0, 1], cand, bs, real)
+                    o = _pool_query(subj, X, y_enc, ml, [0, 1], cand, bs, real, wts)
                 acc.transitions += 1
                 wit = {"subject": subj.name, "X": X.tolist(), "labels": list(lab), "encoding": enc, "cand_mode": mode, "batch_size": bs}
                 rep = {"what": "pool", "name": subj.name, "pool": pname, "labels": list(lab), "mode": mode, "bs": bs, "enc": enc}
